@@ -41,6 +41,7 @@ vars == <<cs, pc, out, i>>
 (* Symbols                                                                 *)
 
 WS == {"S", "N"}                      \* unicode.IsSpace on the alphabet
+NonWs(s) == SelectSeq(s, LAMBDA c : c \notin WS)
 
 \* macro symbols let a short symbol sequence contain a whole separator keyword
 Expand(sym) ==
@@ -106,6 +107,16 @@ RemoveLoop(parts, total, sepLen, ov) ==
     ELSE parts
 RemoveFirstUntilOverlap(parts, sep, ov) == RemoveLoop(parts, JoinedLen(parts, Len(sep)), Len(sep), ov)
 
+\* the loop after the overlap tail is chosen: the kept tail must leave room for the separator and
+\* the next piece (drop from the front while currentLen + splitLen + len(currentDoc)*sepLen > ChunkSize);
+\* st = [cur, len]
+RECURSIVE FitLoop(_, _, _, _)
+FitLoop(st, splitLen, sepLen, sz) ==
+    IF Len(st.cur) > 0 /\ st.len + splitLen + Len(st.cur) * sepLen > sz
+    THEN LET rest == Tail(st.cur)
+         IN FitLoop([cur |-> rest, len |-> st.len - Len(st.cur[1]) - (IF Len(rest) > 0 THEN sepLen ELSE 0)], splitLen, sepLen, sz)
+    ELSE st
+
 \* one iteration of the `for _, split := range splits` loop of mergeSplits;
 \* st = [docs, cur, len] are mergedDocs, currentDoc, currentLen
 MergeStep(st, split, sep, sz, ov) ==
@@ -115,7 +126,8 @@ MergeStep(st, split, sep, sz, ov) ==
                ELSE LET docs2 == Append(st.docs, Join(st.cur, sep))
                     IN IF ov > 0
                        THEN LET kept == RemoveFirstUntilOverlap(st.cur, sep, ov)
-                            IN [docs |-> docs2, cur |-> kept, len |-> JoinedLen(kept, sepLen)]
+                                fit  == FitLoop([cur |-> kept, len |-> JoinedLen(kept, sepLen)], Len(split), sepLen, sz)
+                            IN [docs |-> docs2, cur |-> fit.cur, len |-> fit.len]
                        ELSE [docs |-> docs2, cur |-> <<>>, len |-> 0]
     IN [docs |-> st1.docs, cur |-> Append(st1.cur, split), len |-> st1.len + Len(split)]
 
@@ -127,21 +139,26 @@ MergeSplits(splits, sep, sz, ov) ==
     LET st == MergeLoop([docs |-> <<>>, cur |-> <<>>, len |-> 0], splits, sep, sz, ov)
     IN IF Len(st.cur) > 0 THEN Append(st.docs, Join(st.cur, sep)) ELSE st.docs
 
-\* recursiveSplit: structural recursion on the separator list
+\* recursiveSplit: structural recursion on the separator list.  A separator that carries text
+\* (strings.TrimSpace(separator) != "", e.g. "\nfunc", "\n## ") stays as a prefix of the part it
+\* introduces and the pieces are then merged with the empty separator.
 RECURSIVE RSplit(_, _, _, _)
 RSplit(text, seps, sz, ov) ==
     IF seps = <<>> THEN <<text>>
     ELSE LET sep   == Head(seps)
              next  == Tail(seps)
-             parts == GoSplit(text, sep)
-         IN IF Len(parts) = 1 /\ sep # <<>>
+             raw   == GoSplit(text, sep)
+         IN IF Len(raw) = 1 /\ sep # <<>>
             THEN RSplit(text, next, sz, ov)
-            ELSE LET good == FlattenSeq([k \in 1..Len(parts) |->
+            ELSE LET keeps == NonWs(sep) # <<>>
+                     parts == IF keeps THEN [k \in 1..Len(raw) |-> IF k = 1 THEN raw[1] ELSE sep \o raw[k]] ELSE raw
+                     jsep  == IF keeps THEN <<>> ELSE sep
+                     good  == FlattenSeq([k \in 1..Len(parts) |->
                                 IF parts[k] = <<>> THEN <<>>
                                 ELSE IF Len(parts[k]) < sz THEN <<parts[k]>>
                                 ELSE IF next # <<>> THEN RSplit(parts[k], next, sz, ov)
                                 ELSE <<parts[k]>>])
-                 IN MergeSplits(good, sep, sz, ov)
+                 IN MergeSplits(good, jsep, sz, ov)
 
 \* SplitText: greedy concatenation of the merged pieces up to ChunkSize
 FinalStep(st, split, sz) ==
@@ -159,7 +176,6 @@ SplitText(text, seps, sz, ov) ==
 -----------------------------------------------------------------------------
 (* Property predicates (over a text and a chunk list)                      *)
 
-NonWs(s) == SelectSeq(s, LAMBDA c : c \notin WS)
 
 \* a is a subsequence of b
 RECURSIVE SubseqFrom(_, _, _, _)
@@ -179,40 +195,6 @@ NoLoss(text, chunks) == IsSubseq(NonWs(text), NonWs(Concat(chunks)))
 
 \* "never produces a chunk longer than the configured size plus overlap"
 Bounded(chunks, sz, ov) == \A k \in 1..Len(chunks) : Len(chunks[k]) <= sz + ov
-
------------------------------------------------------------------------------
-(* Signatures of the known findings (mirrored by the Go binding, see        *)
-(* known_findings.json KF-C20-1 / KF-C20-2): the weakened invariants hold  *)
-(* on the transcription; the strict ones are checked in a separate config  *)
-(* whose counterexample is reproduced on the real code.                    *)
-
-\* strings.ReplaceByNewline(t, sep, "\n")
-RECURSIVE ReplaceByNewline(_, _)
-ReplaceByNewline(t, sep) ==
-    IF t = <<>> THEN <<>>
-    ELSE IF StartsWith(t, sep) THEN <<"N">> \o ReplaceByNewline(SubSeq(t, Len(sep) + 1, Len(t)), sep)
-    ELSE <<Head(t)>> \o ReplaceByNewline(Tail(t), sep)
-
-RECURSIVE ReplaceSeps(_, _)
-ReplaceSeps(t, seps) ==
-    IF seps = <<>> THEN t
-    ELSE ReplaceSeps(IF NonWs(Head(seps)) # <<>> THEN ReplaceByNewline(t, Head(seps)) ELSE t, Tail(seps))
-
-\* KF-C20-1: whatever is lost belongs to occurrences of a separator that has non-whitespace characters
-LossOnlyOfSeparators(text, seps, chunks) == IsSubseq(NonWs(ReplaceSeps(text, seps)), NonWs(Concat(chunks)))
-
-\* KF-C20-2: with overlap > 0 a merged piece is (kept tail <= overlap) + separator + next piece, not
-\* re-checked against the size, compounding over the separator levels
-RECURSIVE Envelope(_, _, _)
-Envelope(seps, sz, ov) ==      \* the innermost level is the last separator
-    IF seps = <<>> THEN 0
-    ELSE LET inner == Envelope(Tail(seps), sz, ov)
-             small == IF Tail(seps) = <<>> /\ sz - 1 < 1 THEN 1 ELSE sz - 1
-             piece == IF inner > small THEN inner ELSE small
-             d     == ov + Len(Head(seps)) + piece
-         IN IF d < sz THEN sz ELSE d
-WithinOverlapEnvelope(chunks, seps, sz, ov) ==
-    ov > 0 /\ \A k \in 1..Len(chunks) : Len(chunks[k]) <= Envelope(seps, sz, ov)
 
 -----------------------------------------------------------------------------
 (* Cases and behaviours                                                    *)
@@ -286,15 +268,8 @@ Prop_ChunkerVariant == [][(pc = "loop" /\ pc' = "loop") => (Len(cs.text) - i' < 
 Prop_Terminates == <>(pc = "done")
 Inv_ChunkerClosedForm == (Done /\ ~IsSplitter) => out = ChunkerResult
 
-\* strict property
+\* the property
 Inv_NoLoss  == Done => NoLoss(cs.text, out)
 Inv_Bounded == (Done /\ (IsSplitter \/ ~ChunkerInvalid)) => Bounded(out, cs.sz, cs.ov)
 Inv_NoEmptyChunk == (Done /\ IsSplitter) => \A k \in 1..Len(out) : out[k] # <<>>
-
-\* property modulo the two known findings
-Inv_NoLossModuloKnown ==
-    Done => (NoLoss(cs.text, out) \/ (IsSplitter /\ LossOnlyOfSeparators(cs.text, SepsOf(cs.st), out)))
-Inv_BoundedModuloKnown ==
-    (Done /\ (IsSplitter \/ ~ChunkerInvalid)) =>
-        (Bounded(out, cs.sz, cs.ov) \/ (IsSplitter /\ WithinOverlapEnvelope(out, SepsOf(cs.st), cs.sz, cs.ov)))
 =============================================================================
